@@ -3,6 +3,8 @@ import PygVerif.Model.Frame
 import PygVerif.Props.C04
 import PygVerif.Props.C10
 import PygVerif.Props.C02
+import PygVerif.Model.Log
+import PygVerif.Lemmas.Str
 /-!
 # C03 — Every request is answered with one well-formed response, whatever came before
 
@@ -296,5 +298,86 @@ example : respond .gemini [] false (.notFound (lit "'/a\r\nb' does not exist")) 
   decide +kernel
 example : wfStatus (respond .spartan [] false (.document (lit "text/plain") none none (lit "body\r\n"))) = true := by
   decide +kernel
+
+/-! ### whatever is logged can be logged (`Model/Log`, `pygopherd/logger.py`)
+
+A request's answer is logged before it is complete (`FileNotFound.__init__` logs), so a logging call that raises is
+a request without a response.  The log line carries text decoded from the request. -/
+
+theorem lowerHexDigit_ascii (n : Nat) (h : n < 16) : 48 ≤ lowerHexDigit n ∧ lowerHexDigit n ≤ 102 := by
+  unfold lowerHexDigit; split <;> omega
+
+theorem ascii_accepted (c : Nat) (h0 : c ≠ 0) (h : c < 128) : okChar c = true := by
+  unfold okChar
+  have h1 : (c != 0) = true := by simpa using h0
+  have h2 : (encodeCp c).isSome = true := by simp [encodeCp, h]
+  have h3 : isEscapedByte c = false := by
+    simp only [isEscapedByte, Bool.and_eq_false_iff, decide_eq_false_iff_not]; omega
+  simp [h1, h2, h3]
+
+theorem backslashX_accepted (b : Nat) (hb : b < 256) : syslogAccepts (backslashX b) = true := by
+  have h1 := lowerHexDigit_ascii (b / 16) (by omega)
+  have h2 := lowerHexDigit_ascii (b % 16) (by omega)
+  simp only [syslogAccepts, backslashX, List.all_cons, List.all_nil, Bool.and_true, Bool.and_eq_true]
+  exact ⟨ascii_accepted 92 (by decide) (by decide), ascii_accepted 120 (by decide) (by decide),
+    ascii_accepted (lowerHexDigit (b / 16)) (by omega) (by omega), ascii_accepted (lowerHexDigit (b % 16)) (by omega) (by omega)⟩
+
+/-- **whatever is logged, `syslog.syslog()` takes it**: for every message that `surrogateescape` can encode (every text
+    decoded from request bytes, file names, error texts), the text `log_syslog` hands over holds no NUL and nothing
+    UTF-8 cannot encode -/
+theorem syslog_text_accepted (m : Str) (bs : Bytes) (h : encodeSE m = some bs) : syslogAccepts (syslogText m) = true := by
+  induction m generalizing bs with
+  | nil => rfl
+  | cons c cs ih =>
+    simp only [encodeSE] at h
+    cases hc : encodeCp c with
+    | none => simp [hc] at h
+    | some a =>
+      cases hcs : encodeSE cs with
+      | none => simp [hc, hcs] at h
+      | some b =>
+        have ih' := ih b hcs
+        simp only [syslogText, List.flatMap_cons] at ih' ⊢
+        simp only [syslogAccepts, List.all_append, Bool.and_eq_true] at ih' ⊢
+        refine ⟨?_, ih'⟩
+        by_cases he : isEscapedByte c = true
+        · simp only [he, if_true]
+          have : c - 0xDC00 < 256 := by
+            simp only [isEscapedByte, Bool.and_eq_true, decide_eq_true_eq] at he; omega
+          exact backslashX_accepted _ this
+        · simp only [he, Bool.false_eq_true, if_false]
+          by_cases h0 : c = 0
+          · simp only [h0, if_true]; exact backslashX_accepted 0 (by decide)
+          · simp only [h0, if_false, List.all_cons, List.all_nil, Bool.and_true]
+            have h1 : (c != 0) = true := by simpa using h0
+            have h3 : isEscapedByte c = false := by simpa using he
+            simp [okChar, h1, hc, h3]
+
+/-- ... in particular every text decoded from bytes (a selector, a file name, an error message quoting them) -/
+theorem decoded_text_is_loggable (bs : Bytes) (h : ∀ b ∈ bs, b < 256) :
+    syslogAccepts (syslogText (decodeSE bs)) = true :=
+  syslog_text_accepted _ bs (encode_decode bs h)
+
+/-- `log_file` writes the line back as the bytes it came from -/
+theorem log_file_line_is_the_bytes (bs : Bytes) (h : ∀ b ∈ bs, b < 256) :
+    logFileBytes (decodeSE bs) = some (bs ++ [10]) := by
+  simp [logFileBytes, encode_decode bs h]
+
+/-- plain ASCII text without NUL is logged as it is -/
+theorem syslog_text_ascii_unchanged (m : Str) (h : ∀ c ∈ m, c ≠ 0 ∧ c < 128) : syslogText m = m := by
+  induction m with
+  | nil => rfl
+  | cons c cs ih =>
+    have hc := h c (by simp)
+    have he : isEscapedByte c = false := by
+      simp only [isEscapedByte, Bool.and_eq_false_iff, decide_eq_false_iff_not]; omega
+    have := ih (fun d hd => h d (by simp [hd]))
+    simp only [syslogText, List.flatMap_cons] at this ⊢
+    simp [he, hc.1, this]
+
+/-- the two inputs that used to make `syslog.syslog()` raise: a byte that is not UTF-8, and a NUL -/
+example : syslogText (decodeSE (lit "'/caf" ++ [0xe9] ++ lit "-dangling.txt' does not exist")) =
+    lit "'/caf\\xe9-dangling.txt' does not exist" ∧
+    syslogText (lit "'/a" ++ [0] ++ lit "b' does not exist") = lit "'/a\\x00b' does not exist" := by decide +kernel
 
 end Pyg.Props.C03
